@@ -431,6 +431,12 @@ class StmtMixin:
             return v.py
         if v.kind == CONST and isinstance(v.py, BaseException):
             return type(v.py)
+        if v.kind == CONST and isinstance(e, ast.Call) and e.args \
+                and self.reg.externals.get(('exception_factory', getattr(v.py, '__qualname__', None))):
+            # raise make_error(ErrorClass, ...): the class is the first argument
+            cv = self.eval(e.args[0])
+            if cv.kind == CONST and isinstance(cv.py, type) and issubclass(cv.py, BaseException):
+                return cv.py
         raise Unsupported(f'raise of non-class (line {e.lineno})')
 
     def s_Try(self, s):
